@@ -12,14 +12,14 @@ MANIFEST_ENTRY = {
           "property (the new code refers to its own jump entries and instructions only; the reported entry is its own). The "
           "builder model keeps the tables of earlier programs out of reach by construction and reports a write below the initial "
           "jump-table length as its own error class. Theorems in coq/Properties/C20.v: relocation + frame for all 73^3 token "
-          "triples and all sequences of length <= 5 over the reduced alphabet, for two non-empty initial states, except in the "
-          "listed classes; witnesses for C20-K1 (the terminator-elision rule reads the previous program's last instruction) and "
-          "C20-K2 (the empty program reports entry 0 without pushing a jump entry); and, by induction on the tree, for EVERY tree "
+          "triples and all sequences of length <= 5 over the reduced alphabet, for two non-empty initial states, except for the "
+          "empty program; a witness for C20-K2 (the empty program reports entry 0 without pushing a jump entry) and a regression "
+          "theorem for the repaired C20-K1 (build.rs b7aaffe: `( )` after a program ending in EndExpression is now the alone build, relocated); and, by induction on the tree, for EVERY tree "
           "and EVERY initial state: the build never writes a jump entry below the initial jump-table length "
           "(C20_no_foreign_jump_all_trees), every jump operand / expression value / the entry lies in the new jump range "
           "(C20_own_jump_refs_all_trees), the build equals the build into an object with empty tables and the same last "
-          "instruction, relocated (C20_relocation_all_trees); outside C20-K1 it equals the build into the EMPTY object, "
-          "relocated (C20_relocation_full); outside C05-K1/K2 every new jump entry lies in the new instruction range "
+          "instruction, relocated (C20_relocation_all_trees); it equals the build into the EMPTY object, "
+          "relocated, for every tree and initial state (C20_relocation_full, no exclusion since the repair); outside C05-K2 (a shape the parser never produces) every new jump entry lies in the new instruction range "
           "(C20_frame_full). These are theorems about the tree compiler; compile_agrees_full (Properties/C05.v: for EVERY node "
           "array that forms a proper tree, every initial state and fuel, a successful run of the worklist model of build() is the "
           "tree compiler's result) carries them to BuilderWL.build: C20_frame_full_builder, C20_own_jump_refs_builder, "
@@ -36,7 +36,7 @@ MANIFEST_ENTRY = {
  "level_note": "Trusted: Coq kernel; extraction; the multi harness and OCaml driver; tools/codelib.py / c20.py (native relocation and "
                "frame checks). Run comparison is made for programs that are stack-balanced (C06) - an unbalanced program can "
                "consume operands an earlier failed run left behind. Constants are compared as structural values (interning on "
-               "SimpleGarnishData may share an earlier program's constant with equal content). Known findings C20-K1, C20-K2.",
+               "SimpleGarnishData may share an earlier program's constant with equal content). Known finding C20-K2 (C20-K1 / C20-K3 repaired in build.rs b7aaffe).",
  "technique": "Coq finite theorems (vm_compute) and refutation witnesses over the builder model parameterised by the initial "
               "state + differential runs of multi-program histories on both data implementations"
 }
@@ -306,21 +306,12 @@ def evaluate(v, cases, impl, model, stats, samples, distinct, listed):
 
 
 def classify(src, oracle, i, a, b):
-    """C20-K2: the empty program. C20-K1: a program that compiles to nothing (alone: a single EndExpression
-    from the terminator) built when the previous instruction is EndExpression."""
+    """C20-K2: the empty program.  (C20-K1 / C20-K3 - a program or nested body that compiles to nothing - were
+    repaired in build.rs, commit b7aaffe; their inputs stay in the corpus.)"""
     toks = oracle[5:].split("/") if oracle.startswith("toks=") else []
     mine = toks[i] if i < len(toks) else None
     if mine == "":
         return "C20-K2"
-    if a is not None and [n for n, _ in a["instrs"]] == ["EndExpression"] and a["meta"] == [None]:
-        if b is None or (len(b["instrs"]) == 0 and b["last"].startswith("6")):
-            return "C20-K1"
-    if a is not None and b is not None:
-        # C05-K1: the alone build already has a jump entry one past its end, and nothing else is wrong
-        alone_bad = [k for k, t in enumerate(a["jumps"]) if k > 0 and t == len(a["instrs"])]
-        shared_bad = [k for k, t in enumerate(b["jumps"]) if t is None or not (b["il"] <= t < b["il"] + len(b["instrs"]))]
-        if alone_bad and shared_bad == alone_bad and relocate(a, b["il"], b["jl"]) == {k: b[k] for k in ("entry", "instrs", "jumps", "meta")}:
-            return "C20-K3"
     return None
 
 
